@@ -2,7 +2,10 @@
 """Regenerates MANIFEST.json from checks.json (single source for per-property texts)."""
 import json, os, subprocess
 ROOT = os.path.dirname(os.path.dirname(os.path.abspath(__file__)))
+import glob
 checks = json.load(open(os.path.join(ROOT, "checks.json")))
+for _f in sorted(glob.glob(os.path.join(ROOT, "checks.d", "*.json"))):
+    checks.update(json.load(open(_f)))
 props = [json.loads(l) for l in open(os.path.join(ROOT, "properties.jsonl"))]
 hook_commits = [l.split()[0] for l in subprocess.run(["git", "-C", "/repo", "log", "--format=%h %s"], capture_output=True, text=True).stdout.splitlines() if "verif hook" in l]
 GOENV = "PATH=/root/go/pkg/mod/golang.org/toolchain@v0.0.1-go1.25.7.linux-amd64/bin:$PATH GOTOOLCHAIN=local GOFLAGS=-mod=mod GOPROXY=off GOSUMDB=off"
